@@ -84,6 +84,7 @@ def run(run):
             if quick and big:
                 ypts = rng.sample(ypts, min(len(ypts), 160))        # large constellations: every TLC evaluation scans all points
             soft_pts = ypts if not (slow or (quick and big)) else rng.sample(ypts, min(len(ypts), (40 if big else 60) if quick else 400))
+            soft_pts = soft_pts[:len(soft_pts) - len(soft_pts) % 5] if len(soft_pts) >= 10 else soft_pts
             d = s.dem()
 
             def feed(points):
@@ -108,6 +109,10 @@ def run(run):
                     if s.kind == "dpsk":
                         continue        # the differential demodulator takes one variance per received pair; covered by the scalar sweep
                     arg = nvt
+                    if s.kind == "memoryless" and len(soft_pts) % 5 == 0:
+                        # several symbols per row, each with its own variance: symbol k of a row must be scaled by variance k of that row
+                        Y = Y.reshape(-1, 5)
+                        arg = nvt.reshape(-1, 5)
                 else:
                     nvt = torch.full((len(soft_pts), 1), float(nv))
                     arg = float(nv)
